@@ -406,7 +406,7 @@ PROPS = {
     "C13": {"theorems": ["C13_whitelist_sound", "C13_whitelist_complete"], "engines": [eng_valuetable, eng_forms, eng_copyprobe, eng_prog],
             "assumptions": ["expression trees are abstracted to the node kinds processValue distinguishes; the mapping from Go syntax to kinds is the table's (hand-written per form)",
                             "evaluation once at package initialisation is Go's semantics of package-level variables, not modelled"]},
-    "C14": {"theorems": ["C14_names_distinct", "C14_invented_names_fresh", "C14_disambiguate_fresh", "C16_collision_order_independent"], "engines": [eng_prog, eng_multi],
+    "C14": {"theorems": ["C14_names_distinct", "C14_file_names_distinct", "C14_emitted_pass_names_fresh", "C14_invented_names_fresh", "C14_disambiguate_fresh", "C16_collision_order_independent"], "engines": [eng_prog, eng_multi],
             "assumptions": ["identifiers are ASCII in the model; non-ASCII names are outside the generated corpus"]},
     "C15": {"level_text": "Machine-checked proof in Coq 8.16.1 over an executable model tied to the code by a per-run correspondence; the copy is proved to be the identity for any complete table and the table is regenerated from copyAST each run; the capture-avoiding renaming is exercised, not modelled (partial).", "theorems": ["C15_copy_identity", "C15_missing_field_is_lost"], "engines": [eng_copyprobe, eng_copydecls],
             "assumptions": ["partial: the capture-avoiding renaming of rewritePkgRefs is exercised by the declaration corpus (structure + behaviour), not modelled in Coq",
